@@ -40,7 +40,10 @@ def run(ctx):
     idx = ctx.index
     res = ctx.resolver
     tw = idx.func("gwf.plugins.touch:touch_workflow")
-    visit = next(iter(tw.nested.values()), None)
+    from ..inline import inlined
+    visit = next((f for f in tw.nested.values() if any(isinstance(c.func, ast.Name) and c.func.id == f.name for c in _calls(f.node))), None) or next(iter(tw.nested.values()), None)
+    if visit is not None:
+        visit = inlined(ctx, visit)
     tcon = f"{tw.module.relpath}::{tw.qual}"
     r1 = ctx.rule("R1", "memoised post-order: all dependencies are visited before the target's own outputs are touched, each target once", min_instances=3)
     if visit is None:
@@ -126,8 +129,8 @@ def run(ctx):
         isinstance(c.func, ast.Name) and c.func.id == visit.name and dotted(c.args[0]) == dotted(n.target) for c in _calls(n)) for n in tw.node.body)
     r3.check(roots_ok, tcon + "::roots", "every requested endpoint is visited", "touch_workflow does not visit every requested endpoint", tw.where)
     rule_cone_selection(ctx, r3)
-    rule_exit_persists(ctx, r3)
-    rule_close_writes(ctx, r3)
+    rule_exit_persists(ctx, r3, ("spec hashes",))
+    rule_close_writes(ctx, r3, ("spec hashes",))
     tc = idx.func("gwf.plugins.touch:touch")
     w_ok = any(isinstance(n, ast.With) and any("get_spec_hashes(" in ast.unparse(i.context_expr) for i in n.items) and any(
         isinstance(c.func, (ast.Name, ast.Attribute)) and idx.canon(c.func, tc.module) == "gwf.plugins.touch.touch_workflow" for c in _calls(n)) for n in walk_no_nested(tc.node))
